@@ -432,3 +432,48 @@ package proto
 //@   requires b != nil
 //@   modifies b.Buf
 //@   ensures appendOnly(b, uvsize(u64(x))) && forall j in 0..uvsize(u64(x)) :: b.Buf[old(len(b.Buf)) + j] == uvbyte(u64(x), j)
+
+// remaining Reader primitives (signed / wide / float views of the unsigned readers)
+
+//@ contract (r *Reader) Int8() (v, err) props(C01,C06,C07,C08,C17)
+//@   requires r != nil
+//@   modifies r.pos, r.failed, r.b.Buf
+//@   ensures rdOK(r, err, 1)
+//@   ensures err == nil ==> v == i8(r.in[old(r.pos)])
+//@ contract (r *Reader) Int16() (v, err) props(C01,C06,C07,C08,C17)
+//@   requires r != nil
+//@   modifies r.pos, r.failed, r.b.Buf
+//@   ensures rdOK(r, err, 2)
+//@   ensures err == nil ==> v == i16(unle16(r.in[old(r.pos)], r.in[old(r.pos) + 1]))
+//@ contract (r *Reader) Int32() (v, err) props(C01,C06,C07,C08,C17)
+//@   requires r != nil
+//@   modifies r.pos, r.failed, r.b.Buf
+//@   ensures rdOK(r, err, 4)
+//@   ensures err == nil ==> v == i32(unle32(r.in[old(r.pos)], r.in[old(r.pos) + 1], r.in[old(r.pos) + 2], r.in[old(r.pos) + 3]))
+//@ contract (r *Reader) Int64() (v, err) props(C01,C06,C07,C08,C17)
+//@   requires r != nil
+//@   modifies r.pos, r.failed, r.b.Buf
+//@   ensures rdOK(r, err, 8)
+//@   ensures err == nil ==> v == i64(unle64(r.in[old(r.pos)], r.in[old(r.pos) + 1], r.in[old(r.pos) + 2], r.in[old(r.pos) + 3], r.in[old(r.pos) + 4], r.in[old(r.pos) + 5], r.in[old(r.pos) + 6], r.in[old(r.pos) + 7]))
+//@ contract (r *Reader) UInt128() (v, err) props(C01,C06,C07,C08,C17)
+//@   requires r != nil
+//@   modifies r.pos, r.failed, r.b.Buf
+//@   ensures rdOK(r, err, 16)
+//@   ensures err == nil ==> v.Low == unle64(r.in[old(r.pos)], r.in[old(r.pos) + 1], r.in[old(r.pos) + 2], r.in[old(r.pos) + 3], r.in[old(r.pos) + 4], r.in[old(r.pos) + 5], r.in[old(r.pos) + 6], r.in[old(r.pos) + 7])
+//@   ensures err == nil ==> v.High == unle64(r.in[old(r.pos) + 8], r.in[old(r.pos) + 9], r.in[old(r.pos) + 10], r.in[old(r.pos) + 11], r.in[old(r.pos) + 12], r.in[old(r.pos) + 13], r.in[old(r.pos) + 14], r.in[old(r.pos) + 15])
+//@ contract (r *Reader) Int128() (v, err) props(C01,C06,C07,C08,C17)
+//@   requires r != nil
+//@   modifies r.pos, r.failed, r.b.Buf
+//@   ensures rdOK(r, err, 16)
+//@   ensures err == nil ==> v.Low == unle64(r.in[old(r.pos)], r.in[old(r.pos) + 1], r.in[old(r.pos) + 2], r.in[old(r.pos) + 3], r.in[old(r.pos) + 4], r.in[old(r.pos) + 5], r.in[old(r.pos) + 6], r.in[old(r.pos) + 7])
+//@   ensures err == nil ==> v.High == unle64(r.in[old(r.pos) + 8], r.in[old(r.pos) + 9], r.in[old(r.pos) + 10], r.in[old(r.pos) + 11], r.in[old(r.pos) + 12], r.in[old(r.pos) + 13], r.in[old(r.pos) + 14], r.in[old(r.pos) + 15])
+//@ contract (r *Reader) Float32() (v, err) props(C01,C06,C07,C08,C17)
+//@   requires r != nil
+//@   modifies r.pos, r.failed, r.b.Buf
+//@   ensures rdOK(r, err, 4)
+//@   ensures err == nil ==> v == unle32(r.in[old(r.pos)], r.in[old(r.pos) + 1], r.in[old(r.pos) + 2], r.in[old(r.pos) + 3])
+//@ contract (r *Reader) Float64() (v, err) props(C01,C06,C07,C08,C17)
+//@   requires r != nil
+//@   modifies r.pos, r.failed, r.b.Buf
+//@   ensures rdOK(r, err, 8)
+//@   ensures err == nil ==> v == unle64(r.in[old(r.pos)], r.in[old(r.pos) + 1], r.in[old(r.pos) + 2], r.in[old(r.pos) + 3], r.in[old(r.pos) + 4], r.in[old(r.pos) + 5], r.in[old(r.pos) + 6], r.in[old(r.pos) + 7])
